@@ -388,10 +388,89 @@ def run_rle(rep, thorough):
                 what += '; native replay: %s' % rp.get('line')
                 out = rep.counterexample(key, what[:500], {'desc': desc, 'witness': w, 'replay': rp}, rp['reproduced'])
                 rep.obligation(out == 'known')
+    # read, then skip, then read the rest: a skip that starts in the middle of a run (after part of it was consumed)
+    for runs in shapes:
+        total = sum(runs)
+        combos = [(a, b) for a in range(1, total) for b in range(1, total - a + 1)]
+        if not thorough:
+            combos = [c for c in combos if c[0] <= 3 and c[1] <= 3]
+        for a, b in combos:
+            desc = 'RleBlockIterator over runs %s: next_batch(%d), skip %d, then the rest' % (list(runs), a, b)
+            vals = [(Bool('rv_valid%d' % i), BitVec('rv_raw%d' % i, 32)) for i in range(len(runs))]
+            _RLE['inner'] = {'vals': vals, 'pos': 0}
+            it = Struct('RleBlockIterator', [Opaque('inner'), Seq([mk_int(c, 'u32') for c in runs], 'vec'), mk_int(0, 'usize'), mk_int(0, 'usize'), mk_int(len(runs), 'usize'),
+                                             Enum('Option', 'None'), mk_int(0, 'usize'), mk_int(total, 'usize'), BoolVal(True)])
+            itref = Ref(Cell(it))
+            expanded = [vals[i] for i, c in enumerate(runs) for _ in range(c)]
+            try:
+                b1 = Ref(Cell(Struct('PrimitiveArrayBuilder', [Bits([]), Seq([])])))
+                outs = vm.run(f_next, [itref, Enum('Option', 'Some', [mk_int(a, 'usize')]), b1], pc=())
+                if len(outs) != 1 or outs[0].kind != 'ret':
+                    raise Unsupported('first batch forks or panics (%s)' % [o.kind for o in outs])
+                itref, pc = outs[0].args[0], tuple(outs[0].pc)
+                outs = vm.run(f_skip, [itref, mk_int(b, 'usize')], pc=pc)
+                if len(outs) != 1:
+                    raise Unsupported('skip forks (%s)' % [o.kind for o in outs])
+                if outs[0].kind != 'ret':
+                    outs2 = outs
+                else:
+                    itref, pc = outs[0].args[0], tuple(outs[0].pc)
+                    b2 = Ref(Cell(Struct('PrimitiveArrayBuilder', [Bits([]), Seq([])])))
+                    outs2 = vm.run(f_next, [itref, Enum('Option', 'None'), b2], pc=pc)
+            except (Unsupported, MirSyntax, KeyError, IndexError, AttributeError, TypeError) as ex:
+                rep.fail_inconclusive('%s: %s: %s' % (desc, type(ex).__name__, str(ex)[:300]))
+                continue
+            want_rows = expanded[a + b:]
+            for o in outs2:
+                n_ob += 1
+                rep.cov['programs'] += 1
+                if o.kind != 'ret':
+                    st, m = satisfiable(list(o.pc))
+                    if st == 'unsat':
+                        continue
+                    w = {'runs': list(runs), 'read': a, 'skip': b, 'run_values': [None if not is_true(m.eval(v, model_completion=True)) else m.eval(r, model_completion=True).as_signed_long() for v, r in vals]}
+                    rp = replay_rle_read_skip(w)
+                    out = rep.counterexample('rle-iterator:read-skip-read:panics', '%s: panics (%s); native replay: %s' % (desc, str(o.value)[:80], rp.get('line')), {'desc': desc, 'witness': w, 'replay': rp}, rp['reproduced'])
+                    rep.obligation(out == 'known')
+                    continue
+                bld = vm.deref_value(o.args[2])
+                got_valid, got_data = vm.deref_value(bld.fields[0]), vm.deref_value(bld.fields[1])
+                cnt = concrete_int(o.value)
+                ok_shape = cnt == len(want_rows) and len(got_valid.bits) == len(want_rows)
+                claim = And([And(bool_(gv) == wv, Or(Not(wv), vm.deref_value(gd).v == wr)) for gv, gd, (wv, wr) in zip(got_valid.bits, got_data.items, want_rows)]) if ok_shape else BoolVal(False)
+                st, m = check(list(o.pc), claim)
+                if st == 'unsat':
+                    rep.obligation(True)
+                    continue
+                if st == 'unknown':
+                    rep.obligation(False)
+                    rep.fail_inconclusive('solver unknown: ' + desc)
+                    continue
+                w = {'runs': list(runs), 'read': a, 'skip': b, 'returned_count': cnt, 'expected_count': len(want_rows),
+                     'run_values': [None if not is_true(m.eval(v, model_completion=True)) else m.eval(r, model_completion=True).as_signed_long() for v, r in vals]}
+                rp = replay_rle_read_skip(w)
+                what = '%s: returned %s rows, expected %d; run values %s; native replay: %s' % (desc, cnt, len(want_rows), w['run_values'], rp.get('line'))
+                out = rep.counterexample('rle-iterator:read-skip-read:%s' % ('count' if not ok_shape else 'values'), what[:500], {'desc': desc, 'witness': w, 'replay': rp}, rp['reproduced'])
+                rep.obligation(out == 'known')
     rep.solver(time.time() - t0, n_ob)
     rep.cov['functions_encoded'] = list(rep.cov.get('functions_encoded', [])) + ['RleBlockIterator::{next_batch, skip, get_next_element, get_cur_rle_count} (from MIR)']
     if isinstance(rep.cov.get('bounds'), dict):
         rep.cov['bounds']['rle block iterator'] = 'run-length shapes %s, every skip position, batches of 1-2 rows or the rest; run values (and NULL-ness) symbolic' % ('all of 1-3 runs of length 1-3' if thorough else str(shapes))
+
+
+def replay_rle_read_skip(w):
+    """read a, skip b, read the rest on the real RLE builder + iterator (native replay binary)."""
+    from kani import run as krun
+    vals = [255 if v is None else (v % 200) for v in w['run_values']]
+    for i in range(1, len(vals)):
+        if vals[i] == vals[i - 1]:
+            vals[i] = (vals[i] + 1) % 200 if vals[i] != 255 else 7
+    try:
+        krun.ensure_replay_fn('c06_rle_read_skip_replay')
+        line = krun.native_replay('c06_rle_read_skip_replay', [w['runs'], vals, [w['read']], [w['skip']]])
+    except Exception as ex:
+        return {'reproduced': None, 'line': 'native replay unavailable: %s' % ex}
+    return {'reproduced': True if line.startswith('REPLAY panic') else (False if line.startswith('REPLAY ok') else None), 'line': line}
 
 
 def replay_rle(w):
